@@ -141,11 +141,13 @@ def _interp_records(chk):
     oldtmp = tempfile.tempdir
     tempfile.tempdir = str(tmp)
     try:
-        sources = ("memory", "yaml", "archive")
+        sources = ("memory", "yaml", "archive", "mutated")
         for src, log, deg in itertools.product(sources, (True, False), (1, 2, 3, 4)):
-            card = dc.random_operator(chk.rng, log=log, degree=deg)
+            card = dc.random_operator(chk.rng, log=log if src != "mutated" else not log, degree=deg)
             try:
-                if src == "yaml":
+                if src == "mutated":   # the declared flag is changed on the card object after construction
+                    card.configs.interpolation_is_log = log
+                elif src == "yaml":
                     card = OperatorCard.from_dict(_plain_operator(card))
                 elif src == "archive":
                     theory = dc.random_theory(chk.rng)
@@ -168,8 +170,9 @@ def _interp_records(chk):
             modes = {bool(getattr(b, "_mode_log", disp.log)) for b in disp}
             if modes != {bool(disp.log)}:
                 chk.diag(f"basis functions built in modes {modes} by a dispatcher with log={disp.log}")
+            same = bool(np.array_equal(np.asarray(disp.xgrid.raw, dtype=float), np.asarray(card.xgrid.raw, dtype=float)))
             rec = {"src": "interp", "declLog": bool(log), "declDeg": int(deg), "dispLog": bool(disp.log),
-                   "dispDeg": int(disp.polynomial_degree), "from": src}
+                   "dispDeg": int(disp.polynomial_degree), "from": src, "pts": "same" if same else "differ"}
             recs.append(rec)
             objs.append((f"commons.interpolator(card from {src}: interpolation_is_log={log}, degree={deg})",
                          f"xgrid.log of the card object={card.xgrid.log}", rec))
@@ -242,8 +245,8 @@ def run(chk):
     c1.update(oc="differs", d1="xgrid-log-flag-lost")
     c2 = copy.deepcopy(recs[good])   # same observation attached to a value no design round-trips this way
     c2["v"]["kids"][0] = {"k": "npint32", "a": "i1", "kids": [], "n": []}
-    c3 = {"src": "interp", "declLog": True, "declDeg": 3, "dispLog": False, "dispDeg": 3, "from": "synthetic"}
-    c4 = {"src": "interp", "declLog": False, "declDeg": 2, "dispLog": False, "dispDeg": 3, "from": "synthetic"}
+    c3 = {"src": "interp", "declLog": True, "declDeg": 3, "dispLog": False, "dispDeg": 3, "from": "synthetic", "pts": "same"}
+    c4 = {"src": "interp", "declLog": False, "declDeg": 2, "dispLog": False, "dispDeg": 3, "from": "synthetic", "pts": "same"}
     n = len(recs)
     bad, conf = _validate(chk, recs + [c1, c2, c3, c4], "observed round trips and dispatchers")
     chk.cov["traces_validated_against_impl"] -= 4
